@@ -640,6 +640,28 @@ def ble_mfr(draw):
     return {"mfr": data, "pairing": draw(st.sampled_from(["none", "cached", "uncached"])), "company": draw(st.sampled_from([76, 76, 76, 6, 77]))}
 
 
+def fuzz_target(data, R):
+    if not data:
+        return
+    run_ble_parse({"mfr": data[1:], "pairing": ["none", "cached", "uncached"][data[0] % 3], "company": 76 if data[0] < 240 else 77}, R)
+
+
+def run_fuzz(case, R):
+    import os
+
+    from vlib.fuzzdrv import run_campaign
+    corpus = [] if case["corpus"] == "empty" else [bytes([i]) + regular_adv(7, bytes.fromhex("aabbcc000001")) for i in range(3)] + \
+        [bytes([1, 0x11, 0x36]) + bytes.fromhex("aabbcc000001") + bytes(16)]
+    execs, data, failures = run_campaign(R, "props.c19", "fuzz_target", case["runs"], int(os.environ.get("VERIF_SEED") or 1), corpus, max_len=40)
+    R.sub = max(0, execs - 1)
+    R.nt()
+    R.cls("atheris:" + case["corpus"])
+    if data is not None:
+        fuzz_target(data, R)
+        if not R.failures:
+            R.fail("C19.fuzz-unreproducible", f"atheris reported {failures!r:.300} for {data.hex()} but the oracle passes on replay")
+
+
 SPEC = Property(
     P, "exploration",
     rule=("schedules of 1..3 waiters (timeouts 0.5/1/10/30 s, ids in either case, optional cancellation) and 0..3 advertisements at generated "
@@ -657,6 +679,8 @@ SPEC = Property(
         Layer("mdns-contents", run_mdns_parse, strategy=mdns_records, n={"quick": 800, "thorough": 20000}, min_nontrivial=200),
         Layer("ble-contents-truncations", run_ble_parse, enumerate=enum_ble_parse, exhaustive=True, space="every prefix of a regular (19 bytes) and an encrypted (24 bytes) advertisement x 3 pairing states; wrong company / type / category", min_nontrivial=100),
         Layer("ble-contents", run_ble_parse, strategy=ble_mfr, n={"quick": 1500, "thorough": 40000}, min_nontrivial=300),
+        Layer("ble-contents-atheris", run_fuzz, enumerate=lambda tier: iter([{"corpus": "empty", "runs": 400000}, {"corpus": "seeded", "runs": 400000}]), tiers=("thorough",),
+              space="two libFuzzer campaigns of 400k executions on BleController._device_detected (first byte selects the pairing state), oracle inside the target"),
     ],
     assumptions=["zeroconf's cache is filled directly and the browser callback fired by the harness; the scanner is not started",
                  "waiters on the BLE controller use the lower-case id (only the mDNS controllers normalise the id a caller passes)",
